@@ -734,6 +734,17 @@ def is_transparent(callee):
     return c.endswith(TRANSPARENT_SUFFIXES) or c.endswith("::Try>::branch") or c.endswith("::branch")
 
 
+def _agg_field(r, name):
+    """operand index of an aggregate selected by a projection name (tuple index or field name)"""
+    if r.get("ak") == "tuple" and name.isdigit() and int(name) < len(r["ops"]):
+        return int(name)
+    if r.get("ak") == "adt":
+        fs = r.get("fields", [])
+        if name in fs and fs.index(name) < len(r["ops"]):
+            return fs.index(name)
+    return None
+
+
 def _names(p):
     return tuple(e[2] if e[0] == "field" else e[1] for e in p["pr"] if e[0] in ("field", "downcast"))
 
@@ -862,6 +873,9 @@ def origins(body, op_or_local, transparent=transparent_args, max_steps=6000, thr
                 work.append((r["p"]["l"], _names(r["p"]) + names))
             elif k == "discr" and follow_discr:
                 work.append((r["p"]["l"], _names(r["p"]) + ("<discr>",) + names))
+            elif k == "agg" and names and _agg_field(r, names[0]) is not None:
+                # field-sensitive: `(a, b).0` comes from `a`
+                push_op(r["ops"][_agg_field(r, names[0])], names[1:])
             elif k == "agg":
                 if through_agg:
                     for o in r["ops"]:
